@@ -100,6 +100,14 @@ let handle (x : sexp) : Stdlib.String.t =
       dtout_str (datetime_out (zint y) (zint mo) (zint d) (zint h) (zint mi) (zint sec) (zint us) (boolv tz) (boolv fold))
   | L [A "time"; h; mi; sec; us; tz; fold] ->
       dtout_str (time_out (zint h) (zint mi) (zint sec) (zint us) (boolv tz) (zint fold))
+  | L [A "lpops"; smart; w; rw; d] ->
+      (match best_layout_pops evs_dummy big_fuel big_fuel (boolv smart) (zint w) (zint rw) (doc_of d) with
+       | None -> "FUEL" | Some (a, b) -> string_of_int (int_of_nat a) ^ " " ^ string_of_int (int_of_nat b))
+  | L [A "ppops"; indent; w; rw; depth; maxlen; sort; v] ->
+      let d = top_doc is_space_u is_linebreak (val_of v) (zint indent) (optz depth) (zint maxlen) (boolv sort) in
+      (match best_layout_pops (eval_str printable is_space_u is_word_u is_linebreak) big_fuel big_fuel true
+               (zint w) (zint rw) d with
+       | None -> "FUEL" | Some (a, b) -> string_of_int (int_of_nat a) ^ " " ^ string_of_int (int_of_nat b))
   | L [A "dcshow"; A kind; r; a; b; c; d] ->
       let f = if kind = "dc" then dc_display else attrs_display in
       if f (boolv r) (boolv a) (boolv b) (boolv c) (boolv d) then "1" else "0"
